@@ -33,6 +33,16 @@ POSTCONDITION Post
 """
 
 
+ZOPE_PROJECTS = [
+    {"zp/__init__.py": "", "zp/i.py": "from zope.interface import Interface\nclass IFoo(Interface):\n    def m(): 'doc'\nclass IBar(IFoo):\n    pass\n",
+     "zp/impl.py": "from zope.interface import implementer\nfrom zp.i import IFoo, IBar\n@implementer(IFoo)\nclass Foo:\n    def m(self): pass\n@implementer(IBar, IFoo)\nclass Bar(Foo):\n    pass\n"},
+    {"zp/__init__.py": "from zp._i import IFoo\n__all__ = ['IFoo']\n", "zp/_i.py": "from zope.interface import Interface\nclass IFoo(Interface):\n    pass\n",
+     "zp/a.py": "from zope.interface import implementer\nfrom zp._i import IFoo\n@implementer(IFoo)\nclass A:\n    pass\n",
+     "zp/b.py": "from zope.interface import implementer\nimport zp\n@implementer(zp.IFoo)\nclass B:\n    pass\nclass B:\n    'redefined'\n"},
+    {"zp/__init__.py": "", "zp/m.py": "from zope.interface import Interface, implements, classImplements, moduleProvides\nclass IM(Interface):\n    pass\nmoduleProvides(IM)\nclass C:\n    implements(IM)\nclass D:\n    pass\nclassImplements(D, IM)\n"},
+]
+
+
 def testpackages() -> List[Path]:
     import pydoctor
     base = Path(pydoctor.__file__).parent / "test" / "testpackages"
@@ -137,6 +147,24 @@ def run(ctx: Ctx) -> int:
         if len(b["rec"].events) <= 120:
             traces.append(trace_of(b["rec"]))
             origins.append(origin)
+    # zope.interface back-references, including an interface moved by a re-export and named by its old location
+    for zi, files in enumerate(ZOPE_PROJECTS):
+        d = ctx.scratch / f"zope{zi}"
+        for rel, text in files.items():
+            f = d / rel
+            f.parent.mkdir(parents=True, exist_ok=True)
+            f.write_text(text)
+        b = P.build_sources(paths=[d / "zp"])
+        origin = {"family": "zope", "shape": f"zope{zi}", "files": files}
+        judge_events(ctx, b["rec"].events, origin)
+        rel = P.derived_relations(b["system"], b["msgs"])
+        n_impl = sum(len(getattr(o, "implementedby_directly", []) or []) for o in b["system"].allobjects.values())
+        ctx.extra.setdefault("zope_implementedby_edges", 0)
+        ctx.extra["zope_implementedby_edges"] += n_impl
+        for dd in rel:
+            ctx.violation({"invariant": dd.split(":")[0], "detail": dd, "origin": origin, "key": f"derived:{dd.split(':')[0]}:zope{zi}"})
+        traces.append(trace_of(b["rec"]))
+        origins.append({"family": "zope", "shape": f"zope{zi}"})
     nrand = 40 if ctx.quick else 400
     for i in range(nrand):
         src = pygen.gen_module(rng, depth=3, max_stmts=4)
